@@ -38,6 +38,20 @@ func vc05_url(k, n int) {
 	}
 }
 
+// the URL escapers on arbitrary strings: no run-time panic
+func vc05_escapers(n int) {
+	s := vsym_string(n)
+	var w vWriter
+	_, _ = pathEscape(&w, s, true)
+	_, _ = pathEscape(&w, s, false)
+	_, _ = queryEscape(&w, s)
+}
+
+func vh_c05_escapers_q() { vc05_escapers(3) }
+func vh_c05_escapers_t() { vc05_escapers(5) }
 func vh_c05_url_q() { vc05_url(2, 1) }
 func vh_c05_url_t() { vc05_url(3, 1) }
 func vh_c05_url2_t() { vc05_url(2, 2) }
+
+
+
